@@ -221,6 +221,79 @@ inductive Wire where
 
 def Wire.ofPayload (p : Payload) : Wire := .triple (.num p.accessed) (.num p.created) (some p.data)
 
+/-! ### reading an arbitrary deserialised JSON value the way `__init__` does (lines 226-238, 250)
+
+`strNum` is Python's `float()` on a `str` (`"12"`, `" 1e3 "`, `"inf"` …) — abstract: `none` = `ValueError`; the driver
+uses plain decimal digit strings.  Negative integers (a stamp before 1970) are read as 0. -/
+
+/-- `rval, cval, sval = value`: a list of three, a `str` of three characters, a `dict` of three keys (its keys);
+anything else raises `TypeError` / `ValueError` -/
+def JV.unpack3 : JV → Option (JV × JV × JV)
+  | .arr [a, b, c] => some (a, b, c)
+  | .obj [(a, _), (b, _), (c, _)] => some (.str a, .str b, .str c)
+  | .str s => match s.toList with
+    | [a, b, c] => some (.str (String.singleton a), .str (String.singleton b), .str (String.singleton c))
+    | _ => none
+  | _ => none
+
+/-- `float(x)` -/
+def JV.toFld (strNum : String → Option Nat) : JV → Fld
+  | .int i => .num (4 * i.toNat)
+  | .bool b => .num (if b then 4 else 0)
+  | .str s => match strNum s with
+    | some q => .num q
+    | none => .bad
+  | _ => .bad
+
+/-- a `[key, value]` pair with a `str` key -/
+def JV.asPair : JV → Option (String × JV)
+  | .arr [.str k, v] => some (k, v)
+  | _ => none
+
+def JV.asPairs : List JV → Option (List (String × JV))
+  | [] => some []
+  | x :: r => match JV.asPair x, JV.asPairs r with
+    | some p, some ps => some (p :: ps)
+    | _, _ => none
+
+/-- `dict.__init__(self, sval)`: a mapping is copied; a list of `[str, value]` pairs is accepted too (later pairs win), so
+is an empty list and the empty string; everything else raises (`none`).  (Lists with other two-element items — e.g.
+two-character strings — are accepted by Python as well; not modelled, not generated.) -/
+def JV.toState : JV → Option Data
+  | .obj d => some d
+  | .arr xs => (JV.asPairs xs).map (fun ps => ps.foldl (fun d kv => dset d kv.1 kv.2) [])
+  | .str s => if s.isEmpty then some [] else none
+  | _ => none
+
+/-- `float()` restricted to the strings the harness and the translator generate as stamps: plain ASCII decimal digits are
+numbers (in quarter seconds), every other string is refused -/
+def digitStrNum (s : String) : Option Nat :=
+  let cs := s.toList
+  if !cs.isEmpty && cs.all (fun c => 48 ≤ c.toNat && c.toNat ≤ 57) then
+    some (4 * cs.foldl (fun acc c => acc * 10 + (c.toNat - 48)) 0)
+  else none
+
+/-- what `__init__` makes of a deserialised value -/
+def JV.toWire (strNum : String → Option Nat) (v : JV) : Wire :=
+  match v.unpack3 with
+  | none => .notTriple
+  | some (a, b, c) => .triple (a.toFld strNum) (b.toFld strNum) c.toState
+
+/-- a payload `_set_cookie` can have produced, up to the reading of its stamps: three fields, both stamps convertible
+by `float()`, the state a mapping -/
+def JV.wellFormed (strNum : String → Option Nat) (v : JV) : Bool :=
+  match v.unpack3 with
+  | some (a, b, .obj _) => (a.toFld strNum != .bad) && (b.toFld strNum != .bad)
+  | _ => false
+
+/-- three fields with convertible stamps whose state is NOT a mapping: outside what `_set_cookie` produces, and not
+turned into an empty state by `__init__` (finding F-C10c) -/
+def JV.nonMappingState (strNum : String → Option Nat) (v : JV) : Bool :=
+  match v.unpack3 with
+  | some (_, _, .obj _) => false
+  | some (a, b, _) => (a.toFld strNum != .bad) && (b.toFld strNum != .bad)
+  | none => false
+
 /-- The serialiser handed to `BaseCookieSessionFactory`, abstractly.  `loads = none` is `ValueError`. -/
 structure Codec (κ : Type) where
   dumps : Payload → κ
